@@ -212,6 +212,112 @@ theorem safeOut_full_fails_today : ¬ SafeOutFull := by
   have := h1 (.list [.null]) (by decide)
   exact absurd this (by decide)
 
+/-! ### output positions on ALL type expressions: the exclusion of finding G1 as an explicit predicate -/
+
+/-- **the G1 class**: following `_is_safe_output_type_change` down the two type expressions (non-null wrappers are
+    peeled in step, an added non-null is peeled from the new type), a list is met on both sides whose ITEM types are
+    strictly comparable: they differ, and one is at least as strict as the other (they "differ only in nullability
+    somewhere"). E.g. `[Int!]` / `[Int]`, `[[Int!]]!` / `[[Int]]`. Exactly there the code applies the input rule to an
+    output position. -/
+def g1Pair : Ty → Ty → Bool
+  | .named _, .named _ => false
+  | .named a, .nonNull b => g1Pair (.named a) b
+  | .named _, .list _ => false
+  | .list a, .list b => sub a b != sub b a
+  | .list a, .nonNull b => g1Pair (.list a) b
+  | .list _, .named _ => false
+  | .nonNull a, .nonNull b => g1Pair a b
+  | .nonNull _, .named _ => false
+  | .nonNull _, .list _ => false
+
+private theorem iter_out_exact (k : Nat) : ∀ o n : Ty, o.size + n.size ≤ k →
+    (iter k).2 o n = (sub n o != g1Pair o n) := by
+  induction k with
+  | zero => intro o n h; have := o.size_pos; omega
+  | succ k ih =>
+    intro o n h
+    cases o with
+    | named a =>
+      cases n with
+      | named b =>
+        simp [iter, safeOutStep, Ty.isNamed, Ty.isList, Ty.isNonNull, Ty.name, sub, g1Pair]
+        exact Bool.beq_comm
+      | list b => simp [iter, safeOutStep, Ty.isNamed, Ty.isList, Ty.isNonNull, Ty.name, sub, g1Pair]
+      | nonNull b =>
+        simp only [iter, safeOutStep, Ty.isNamed, Ty.isList, Ty.isNonNull, Ty.inner, Ty.name, sub, g1Pair]
+        simp only [Ty.size] at h
+        simp [ih (.named a) b (by simp [Ty.size] at *; omega)]
+    | list a =>
+      simp only [Ty.size] at h
+      cases n with
+      | named b => simp [iter, safeOutStep, Ty.isNamed, Ty.isList, Ty.isNonNull, sub, g1Pair]
+      | list b =>
+        simp only [iter, safeOutStep, Ty.isNamed, Ty.isList, Ty.isNonNull, Ty.inner, sub, g1Pair]
+        simp only [Ty.size] at h
+        rw [iter_in k a b (by omega)]
+        cases sub a b <;> cases sub b a <;> rfl
+      | nonNull b =>
+        simp only [iter, safeOutStep, Ty.isNamed, Ty.isList, Ty.isNonNull, Ty.inner, sub, g1Pair]
+        simp only [Ty.size] at h
+        simp [ih (.list a) b (by simp [Ty.size] at *; omega)]
+    | nonNull a =>
+      simp only [Ty.size] at h
+      cases n with
+      | named b => simp [iter, safeOutStep, Ty.isNamed, Ty.isList, Ty.isNonNull, sub, g1Pair]
+      | list b => simp [iter, safeOutStep, Ty.isNamed, Ty.isList, Ty.isNonNull, sub, g1Pair]
+      | nonNull b =>
+        simp only [iter, safeOutStep, Ty.isNamed, Ty.isList, Ty.isNonNull, Ty.inner, sub, g1Pair]
+        simp only [Ty.size] at h
+        simp [ih a b (by omega)]
+
+/-- **The translated output predicate, exactly**: it is the strictness order read backwards (`sub new old`: the
+    new type is at least as strict as the old one) with the verdict FLIPPED on the G1 class, on all type expressions. -/
+theorem safeOut_eq (o n : Ty) : safeOut o n = (sub n o != g1Pair o n) :=
+  iter_out_exact _ o n (Nat.le_refl _)
+
+/-- **Output positions (exact) outside the G1 class**, lists included: the differ reports an output type change
+    as safe exactly when the new type only produces values legal for the old type. -/
+theorem safeOut_iff_outside_G1 (o n : Ty) (wo : o.wf = true) (wn : n.wf = true) (hg : g1Pair o n = false) :
+    safeOut o n = true ↔ OutCompat o n := by
+  rw [safeOut_eq, hg]
+  have : (sub n o != false) = sub n o := by cases sub n o <;> rfl
+  rw [this, ← safeIn_eq_sub]
+  exact safeIn_iff n o wn wo
+
+/-- **...and the exclusion is tight**: on every pair of the G1 class the verdict is wrong (either an unsafe change is
+    classified safe, `[Int!]` -> `[Int]`, or a safe one is reported as BREAKING, `[Int]` -> `[Int!]`). -/
+theorem safeOut_wrong_on_G1 (o n : Ty) (wo : o.wf = true) (wn : n.wf = true) (hg : g1Pair o n = true) :
+    ¬ (safeOut o n = true ↔ OutCompat o n) := by
+  intro h
+  have e : (safeOut o n = true) ↔ ¬ (sub n o = true) := by
+    rw [safeOut_eq, hg]; cases sub n o <;> simp
+  have c : OutCompat o n ↔ sub n o = true := by
+    rw [← safeIn_eq_sub]; exact (safeIn_iff n o wn wo).symm
+  rw [e, c] at h
+  by_cases hs : sub n o = true
+  · exact (h.mpr hs) hs
+  · exact hs (h.mp hs)
+
+/-- list-free pairs are outside the G1 class (so `safeOut_iff_partial` is an instance of `safeOut_iff_outside_G1`) -/
+theorem g1Pair_listFree (o n : Ty) (lo : listFree o = true) : g1Pair o n = false := by
+  induction n generalizing o with
+  | named b => cases o <;> simp [g1Pair]
+  | list b _ => cases o <;> simp_all [g1Pair, listFree]
+  | nonNull b ih =>
+    cases o with
+    | named a => simp only [g1Pair]; exact ih _ lo
+    | list a => simp [listFree] at lo
+    | nonNull a => simp only [g1Pair]; exact ih _ (by simpa [listFree] using lo)
+
+/-! non-vacuity: pairs with lists outside the class, and both kinds of wrong verdict inside it -/
+example : g1Pair (.list (.named "Int")) (.nonNull (.list (.named "Int"))) = false
+    ∧ safeOut (.list (.named "Int")) (.nonNull (.list (.named "Int"))) = true := by decide
+example : g1Pair (.list (.nonNull (.named "Int"))) (.list (.named "Int")) = true
+    ∧ safeOut (.list (.nonNull (.named "Int"))) (.list (.named "Int")) = true := by decide
+example : g1Pair (.list (.named "Int")) (.list (.nonNull (.named "Int"))) = true
+    ∧ safeOut (.list (.named "Int")) (.list (.nonNull (.named "Int"))) = false := by decide
+example : g1Pair (.list (.named "Int")) (.list (.named "String")) = false := by decide
+
 /-- classes whose edit removes a client-visible element or narrows a contract -/
 def mustBeBreaking : List String :=
   ["TypeChangedKind", "TypeRemoved", "TypeRemovedFromUnion", "TypeRemovedFromInterface",
